@@ -49,6 +49,11 @@
                              projection) and silently skips the predicate when the column was projected away — after
                              `extract_correlation_predicates` already removed it from the subquery's WHERE.  So
                              `x IN (SELECT y FROM S WHERE S.k = R.k)` becomes `R ⋉_{x = y} S`: the correlation is lost.
+    scalarFirstBatchOnly   — `execute_scalar` looks at `batches[0]` only (subquery.rs:277-292): an empty first batch of the subquery's
+                             result is NULL whatever follows, a one-row first batch hides the rows of later batches (no error).
+    corrScalarFirstRowTyped— `results_array_from_scalars` (subquery.rs:1196-1256) types the result column of a row-by-row correlated
+                             scalar subquery from the FIRST outer row of the batch: a NULL (or Date32 / Int32 …) first result makes
+                             the whole batch NULL.
     (A.20 (c), not a property of the rule and not modelled here: the filtered Semi/Anti probe of hash_join.rs looks up an
      empty generic hash table when the probe side has ≤ 1000 rows — C22.)
 
@@ -70,6 +75,8 @@ structure Dev where
   nonEqFilterFlipped : Bool := false
   inDropsNonEqCorr : Bool := false
   inDropsProjectedCorr : Bool := false
+  scalarFirstBatchOnly : Bool := false
+  corrScalarFirstRowTyped : Bool := false
 deriving DecidableEq, Repr, Inhabited
 
 /-- the intended algorithm -/
@@ -78,7 +85,8 @@ def Dev.none : Dev := {}
 def Dev.current : Dev :=
   { inSubquerySkipsNulls := true, notInPlainAnti := true, corrScalarInSelectNull := true,
     corrErrorsSwallowed := true, scalarCountBug := true, inSubqueryTypesLimited := true,
-    nonEqFilterFlipped := true, inDropsNonEqCorr := true, inDropsProjectedCorr := true }
+    nonEqFilterFlipped := true, inDropsNonEqCorr := true, inDropsProjectedCorr := true,
+    scalarFirstBatchOnly := true, corrScalarFirstRowTyped := true }
 
 /-! ### IN / NOT IN, row by row -/
 
@@ -170,6 +178,19 @@ def evalScalar : Table → Except Err Val
 def executeScalarBatches : List Table → Except Err Val
   | [] => .ok .null
   | b :: _ => evalScalar b
+
+/-- the scalar value of a subquery result that arrives in batches -/
+def evalScalarB (dev : Dev) (batches : List Table) : Except Err Val :=
+  if dev.scalarFirstBatchOnly then executeScalarBatches batches else evalScalar batches.flatten
+
+/-- `results_array_from_scalars` on the per-row results of one outer batch: the array type is chosen from the first
+    result; Int64 / Float64 / Boolean / Utf8 are implemented, anything else (NULL, Date32, …) gives a NullArray. -/
+def typedFromFirst (dev : Dev) (vals : List Val) : List Val :=
+  if !dev.corrScalarFirstRowTyped then vals else
+  match vals with
+  | [] => []
+  | .int _ :: _ | .f64 _ :: _ | .bool _ :: _ | .str _ :: _ => vals
+  | _ => vals.map fun _ => .null
 
 /-- outcome of `precompute_uncorrelated_scalars` on one uncorrelated scalar subquery -/
 inductive Pre
